@@ -204,9 +204,14 @@ func (m *Manager) AddBinding(mac net.HardwareAddr, ipv4 net.IP) error {
 
 	macKey := macToUint64(mac)
 
-	binding := SubscriberBinding{
-		Mode: uint8(m.mode),
+	// Keep an existing IPv6 binding of this subscriber (AddBindingV6 keeps the IPv4 one)
+	var binding SubscriberBinding
+	if m.bindings != nil {
+		m.bindings.Lookup(&macKey, &binding)
 	}
+	binding.Mode = uint8(m.mode)
+	binding.IPv4Addr = 0
+	binding.IPv4Valid = 0
 
 	if ipv4 != nil {
 		ip4 := ipv4.To4()
